@@ -23,7 +23,7 @@ EXPECTED_IMPL_CLASSES = {
     "iso_from:iso_type_leak", "iso_from:coerced_values+iso_type_leak",
     "iso_to:autoinsert_skipped_item_absent_from_file", "type_to:overwrite_of_absent_reports_success",
     "iso_del:retrieved_isotherm_has_another_id", "isotherm_property_type:table_never_created",
-    "iso_to:autoinsert_duplicates_item_present_in_file",
+    "iso_to:autoinsert_duplicates_item_present_in_file", "iso_from:coerced_values",
 }
 
 
@@ -41,7 +41,20 @@ def parse_printed(out, tag):
     return res
 
 
-def design_checks(run, thorough):
+def derived_cfg(name, traits, scratch):
+    """spec/<name>.cfg with the probed trait set instead of the default (all traits)."""
+    with open(os.path.join(tlc.SPEC, name + ".cfg")) as f:
+        text = f.read()
+    if "Traits <- MCTraits" not in text:
+        raise MachineryError(f"{name}.cfg does not assign Traits")
+    text = text.replace("Traits <- MCTraits", "Traits = {" + ", ".join('"%s"' % t for t in traits) + "}")
+    path = os.path.join(scratch, name + ".cfg")
+    with open(path, "w") as f:
+        f.write(text)
+    return path
+
+
+def design_checks(run, thorough, traits, scratch):
     r1 = tlc.must_pass("StoreMC", cfg="StoreMC_spec1t" if thorough else "StoreMC_spec1", timeout=600, workers=8)
     r2 = tlc.must_pass("StoreMC", cfg="StoreMC_spec2", timeout=900, workers=8)
     if r1["distinct"] < 30000 or r2["distinct"] < 10000 or r1["queue"] or r2["queue"]:
@@ -50,7 +63,7 @@ def design_checks(run, thorough):
             tlc_runs={"one_file_all_depths": {"states": r1["distinct"], "transitions": r1["states_generated"], "depth": r1["depth"]},
                       "two_files_depth_bounded": {"states": r2["distinct"], "transitions": r2["states_generated"], "depth": r2["depth"]}},
             tlc_invariants=["DictionaryModel", "Integrity", "StepLaws", "RetrieveThenDelete", "Independence", "SameContentSameOutcome"])
-    ri = tlc.check("StoreMC", cfg="StoreMC_implt" if thorough else "StoreMC_impl", workers=1, timeout=600)
+    ri = tlc.check("StoreMC", cfg=derived_cfg("StoreMC_implt" if thorough else "StoreMC_impl", traits, scratch), workers=1, timeout=600)
     if not ri["ok"]:
         raise MachineryError("StoreMC ImplSys run failed:\n" + "\n".join(ri["out"].splitlines()[-30:]))
     wit = parse_printed(ri["out"], "WITNESS")
@@ -215,15 +228,29 @@ def bulk_history(n):
     return keys
 
 
-def run_histories(run, sess, histories, scratch, samples):
+def run_histories(run, sess, histories, scratch, samples, traits):
     ufile = os.path.join(scratch, "universe-%d.json" % len(sc.ISOS))
     with open(ufile, "w") as f:
-        json.dump(sc.universe_json(), f)
+        json.dump(sc.universe_json(traits=traits), f)
     all_recs = []       # (history name, ops, step, rec, res)
     for name, h in histories:
         sess.fresh()
         for step, (rec, res) in enumerate(replay_history(sess, h)):
             all_recs.append((name, h, step, rec, res))
+    # self-check of the binding: corrupted copies of real records must be rejected by the oracle
+    good = next((r[3] for r in all_recs if r[3]["op"]["op"] == "mat_to" and r[3]["out"] == "ok"), None)
+    if good is not None:
+        d, k = good["op"]["d"], good["op"]["k"]
+        other = [x for x in good["pre"] if x != d][0]
+        bad1 = json.loads(json.dumps(good))
+        bad1["post"][d]["mats"][k] = sc.ABSENT                       # reported success, nothing stored
+        bad2 = json.loads(json.dumps(good))
+        bad2["post"][other]["rest"] = "r:tampered"                  # another file changed
+        bad3 = json.loads(json.dumps(good))
+        bad3["out"] = "refused"                                      # refusal of an acceptable upload
+        verdicts = [a["clause"] for a in tlc.oracle("StoreOracle", [bad1, bad2, bad3], env={"U_IN": ufile}, timeout=300)]
+        if verdicts != ["effect", "independence", "outcome"]:
+            raise MachineryError(f"StoreOracle does not reject corrupted records as expected: {verdicts}")
     answers = tlc.oracle("StoreOracle", [r[3] for r in all_recs], env={"U_IN": ufile}, timeout=1500, chunk=4000)
     nsample = 0
     for (name, h, step, rec, res), ans in zip(all_recs, answers):
@@ -250,15 +277,20 @@ def main(tier, seed):
     rng = random.Random(seed)
     thorough = tier == "thorough"
 
-    witnesses = design_checks(run, thorough)
-
     scratch = tlc.scratch("c08-")
     try:
         sess = sc.Session(sc.db_scratch(scratch, "db"))
         try:
+            traits = sc.probe_traits(sess)
+            run.set(impl_traits_probed=traits)
+            witnesses = design_checks(run, thorough, traits, scratch)
             histories = [("witness:" + cls, h) for cls, h in witnesses] + scripted()
             nsim = 2000 if thorough else 120
-            sim = tlc.simulate("StoreMC", "StoreMC_sim", nsim, 40, seed + 1, timeout=600)
+            if not sess.dir.startswith("/dev/shm"):
+                # database files on disk: every commit fsyncs (~10 ms); keep the replay inside the time budget
+                nsim = 900 if thorough else 80
+                run.note("database files on disk (no /dev/shm): number of simulated histories reduced to %d" % nsim)
+            sim = tlc.simulate("StoreMC", derived_cfg("StoreMC_sim", traits, scratch)[:-4], nsim, 40, seed + 1, timeout=600)
             gen = [h for _, h in parse_printed(sim["out"], "HIST")]
             seen, uniq = set(), []
             for h in gen:
@@ -270,7 +302,7 @@ def main(tier, seed):
                 raise MachineryError(f"TLC -simulate produced only {len(uniq)} distinct histories (wanted {nsim})")
             for i, h in enumerate(uniq[:nsim]):
                 histories.append((f"sim{seed + 1}:{i}", lift(h, rng) if i % 3 == 2 else h))
-            nrec = run_histories(run, sess, histories, scratch, samples=3)
+            nrec = run_histories(run, sess, histories, scratch, samples=3, traits=traits)
         finally:
             sess.close()
         nbulk = 0
@@ -284,7 +316,7 @@ def main(tier, seed):
                     hb += [o("iso_from", "d1"), o("iso_from", "d1", cm="M1"), o("iso_from", "d1", cm="M2", ca="A2"), o("iso_from", "d2")]
                     hb += [o("iso_del", "d1", bulk[i], by="id") for i in (0, 99, 100, 229)]
                     hb += [o("iso_from", "d1"), o("iso_to", "d1", bulk[100], am=True, aa=True), o("iso_from", "d1", ca="A1")]
-                    nbulk = run_histories(run, sess, [("bulk230", hb)], scratch, samples=0)
+                    nbulk = run_histories(run, sess, [("bulk230", hb)], scratch, samples=0, traits=traits)
                     histories.append(("bulk230", hb))
                 finally:
                     sess.close()
